@@ -36,6 +36,9 @@ func coreC06(tier string) []RunSpec {
 	for k := 0; k < 6; k++ {
 		out = append(out, RunSpec{Profile: "core:backend-failure", Params: map[string]int{"bf": 1, "k": k}})
 	}
+	for k := 0; k < 8; k++ {
+		out = append(out, RunSpec{Profile: "core:url-mutants", Params: map[string]int{"url": 1, "k": k}})
+	}
 	return out
 }
 
@@ -412,6 +415,40 @@ func c06BackendFailure(rc *RunCtx, m *MW, snapshot func() string, i int) {
 	}
 }
 
+// c06URLMutants: garbage in the path parameters of the GET endpoints and in the method segment.
+func c06URLMutants(rc *RunCtx, m *MW, snapshot func() string, i int) {
+	W := m.W
+	T := rc.T
+	garb := []string{"x", "0", strings.Repeat("a", 700), "%00", "..%2f..", "%zz", "é世界", randHex(32), "00ffffffffffffff", "active_keyset_key", " ", "null"}
+	g := garb[T.Choose("url.g", len(garb))]
+	paths := []string{"/v1/mint/quote/bolt11/" + g, "/v1/melt/quote/bolt11/" + g, "/v1/keys/" + g, "/v1/mint/quote/" + g, "/v1/melt/quote/" + g + "/abc", "/v1/mint/" + g, "/v1/melt/" + g, "/v1/" + g}
+	pth := paths[T.Choose("url.p", len(paths))]
+	method := []string{"GET", "POST"}[T.Choose("url.m", 2)]
+	rc.Op("url-mutant " + method + " " + cut(pth, 40))
+	before := snapshot()
+	panicsBefore := len(W.Net.Panics)
+	var r *Resp
+	a := NewActor(W, fmt.Sprintf("s%d.url", i))
+	rc.S.BeginEpisode()
+	rc.S.Run1(fmt.Sprintf("s%d.urlreq", i), W.Ext, func() {
+		var body []byte
+		if method == "POST" {
+			body = []byte(`{"quote":"x","outputs":[],"inputs":[],"amount":1,"unit":"sat","request":"lnbc1"}`)
+		}
+		r = a.do(method, "A", pth, body, "application/json")
+	})
+	rc.S.Probe("c06_url_mutant")
+	if len(W.Net.Panics) > panicsBefore {
+		W.Book.Violate("C06.panic", "url|"+method, "%s %s made the handler panic: %s", method, cut(pth, 60), cut(W.Net.Panics[len(W.Net.Panics)-1], 300))
+	}
+	if r != nil && r.Err == nil && r.Status != 200 {
+		if after := snapshot(); after != before {
+			W.Book.Violate("C06.changed_state", "url|"+method, "%s %s answered %d but changed state: %s", method, cut(pth, 60), r.Status, diffDump(before, after))
+		}
+		rc.Nontrivial = true
+	}
+}
+
 func runC06(rc *RunCtx) {
 	T := rc.T
 	fee := []uint{0, 100}[T.Choose("cfg.fee", 2)]
@@ -449,6 +486,10 @@ func runC06(rc *RunCtx) {
 		// some ordinary traffic in between so that mutants arrive at different states
 		if !hasOp && T.Chance("bg", 1, 2) {
 			m.Step(T.Pick("bg.kind", 1, 3, 2, 0, 1, 0, 0, 1, 1), false)
+		}
+		if (!hasOp && T.Chance("urlmutant", 1, 6)) || rc.P("url", 0) == 1 {
+			c06URLMutants(rc, m, snapshot, i)
+			return
 		}
 		if (!hasOp && T.Chance("backendfail", 1, 5)) || rc.P("bf", 0) == 1 {
 			c06BackendFailure(rc, m, snapshot, i)
